@@ -131,20 +131,52 @@ def has_template_wraps(ev: ast.Module) -> bool:
     raise TranslationError("has() template not found")
 
 
+def macro_branch(fn: ast.FunctionDef, name: str) -> List[ast.stmt]:
+    """body of the `if/elif method_name_token.value == "<name>":` branch of Evaluator.member_dot_arg"""
+    for node in ast.walk(fn):
+        if isinstance(node, ast.If) and isinstance(node.test, ast.Compare) and len(node.test.ops) == 1 \
+                and isinstance(node.test.ops[0], ast.Eq) and isinstance(node.test.comparators[0], ast.Constant) \
+                and node.test.comparators[0].value == name and ast.unparse(node.test.left).endswith(".value"):
+            return node.body
+    raise TranslationError(f"member_dot_arg: no branch for {name!r}")
+
+
+def branch_returns(body: List[ast.stmt]) -> List[ast.Return]:
+    out = []
+    for st in body:
+        for node in ast.walk(st):
+            if isinstance(node, ast.Return):
+                out.append(node)
+    return out
+
+
 def interp_macros_wrap(ev: ast.Module) -> bool:
+    """interpreter all / exists: the fold starts from BoolType(True/False) and its result is what is returned;
+    exists_one: EVERY value path returns BoolType(…) (an error path returns the caught exception object)"""
     cls = find_class(ev, "Evaluator")
     fn = find_func(cls.body, "member_dot_arg")
-    seeds = set()
-    one = False
-    for node in ast.walk(fn):
-        if isinstance(node, ast.Call) and ast.unparse(node.func) == "reduce" and len(node.args) == 3:
-            seeds.add(ast.unparse(node.args[2]))
-        if isinstance(node, ast.Return) and node.value is not None and short(callee(node.value)) == "BoolType":
-            arg = uncast(node.value).args[0]
-            if isinstance(arg, ast.Compare) and ast.unparse(arg).endswith("== 1"):
-                one = True
-    want = {"celpy.celtypes.BoolType(True)", "celpy.celtypes.BoolType(False)"}
-    return want <= seeds and one
+    ok = True
+    for name, seed in (("all", "celpy.celtypes.BoolType(True)"), ("exists", "celpy.celtypes.BoolType(False)")):
+        body = macro_branch(fn, name)
+        red = [n for st in body for n in ast.walk(st) if isinstance(n, ast.Call) and ast.unparse(n.func) == "reduce" and len(n.args) == 3]
+        if len(red) != 1 or ast.unparse(red[0].args[2]) != seed:
+            return False
+        assigned = {ast.unparse(st.targets[0]) for st in body if isinstance(st, ast.Assign) and st.value is red[0]}
+        for r in branch_returns(body):
+            v = uncast(r.value) if r.value is not None else None
+            if not (v is red[0] or (isinstance(v, ast.Name) and v.id in assigned)):
+                ok = False
+    body = macro_branch(fn, "exists_one")
+    handlers = {h.name for st in body for n in ast.walk(st) if isinstance(n, ast.Try) for h in n.handlers if h.name}
+    rets = branch_returns(body)
+    if not rets:
+        return False
+    for r in rets:
+        v = uncast(r.value) if r.value is not None else None
+        if short(callee(v)) == "BoolType" or (isinstance(v, ast.Name) and v.id in handlers) or short(callee(v)) == "CELEvalError":
+            continue
+        ok = False
+    return ok
 
 
 def list_results_wrap(ev: ast.Module) -> bool:
@@ -153,8 +185,25 @@ def list_results_wrap(ev: ast.Module) -> bool:
         fn = find_func(ev.body, name)
         ok = ok and returns_built_by(fn, "ListType", passthrough_ok=False)
     cls = find_class(ev, "Evaluator")
-    mda = ast.unparse(find_func(cls.body, "member_dot_arg"))
-    ok = ok and mda.count("celpy.celtypes.ListType(") >= 2
+    mda = find_func(cls.body, "member_dot_arg")
+    for name in ("map", "filter"):
+        body = macro_branch(mda, name)
+        handlers = {h.name for st in body for n in ast.walk(st) if isinstance(n, ast.Try) for h in n.handlers if h.name}
+        assigned: Dict[str, list] = {}
+        for st in body:
+            for n in ast.walk(st):
+                if isinstance(n, ast.Assign) and len(n.targets) == 1 and isinstance(n.targets[0], ast.Name):
+                    assigned.setdefault(n.targets[0].id, []).append(n.value)
+        rets = branch_returns(body)
+        ok = ok and bool(rets)
+        for r in rets:
+            v = uncast(r.value) if r.value is not None else None
+            if short(callee(v)) == "ListType":
+                continue
+            if isinstance(v, ast.Name) and v.id in assigned and all(
+                    short(callee(x)) == "ListType" or (isinstance(uncast(x), ast.Name) and uncast(x).id in handlers) for x in assigned[v.id]):
+                continue
+            ok = False
     # Evaluator.exprlist: the value path ends in `ListType(values)` (the other return hands an error element on)
     ex = find_func(cls.body, "exprlist")
     rets = all_returns(ex)
